@@ -12,8 +12,8 @@ theorem rebinRow_lt (nd : Nat) (l : List Rat) (X Y : Nat → Rat) (i : Nat) (hi 
 
 /-- the grid reset `for(j < ndim) Rebin(ndo/xnd, nd, r, xin, xi, j)` with `ndo = 1`: every row whose
     cell 0 is `1` becomes `rebinRow nd l ·` for the one list `l` computed from the unit grid -/
-theorem rebinRows_reset (rc : Rat) (nd : Nat) (r : Nat → Rat) (l : List Rat) (hnd1 : 1 ≤ nd) (hnd : nd ≤ 50)
-    (hl : ∀ (r' xi' : Nat → Rat), (∀ i, i < 1 → r' i = 1) → (∀ i, i < 1 → xi' i = 1) → rebinLoop rc r' xi' 50 (nd - 1) 0 0 0 = some l)
+theorem rebinRows_reset (rc : Rat) (nd : Nat) (r : Nat → Rat) (l : List Rat) (hnd1 : 1 ≤ nd) (hnd : nd ≤ K.ndmx)
+    (hl : ∀ (r' xi' : Nat → Rat), (∀ i, i < 1 → r' i = 1) → (∀ i, i < 1 → xi' i = 1) → rebinLoop rc r' xi' K.ndmx (nd - 1) 0 0 0 = some l)
     (hr : ∀ i, i < 1 → r i = 1) :
     ∀ cnt (xi : Nat → Nat → Rat), (∀ j, j < cnt → xi j 0 = 1) →
       ∃ xi2, rebinRows rc nd r cnt xi = some xi2 ∧ (∀ j, j < cnt → xi2 j = rebinRow nd l (xi j)) ∧ (∀ j, cnt ≤ j → xi2 j = xi j) := by
@@ -27,7 +27,7 @@ theorem rebinRows_reset (rc : Rat) (nd : Nat) (r : Nat → Rat) (l : List Rat) (
       intro i hi
       have : i = 0 := by omega
       subst this; exact hxi cnt (by omega)
-    have hrow : rebin rc nd r (xi1 cnt) 50 = some (rebinRow nd l (xi cnt)) := by
+    have hrow : rebin rc nd r (xi1 cnt) K.ndmx = some (rebinRow nd l (xi cnt)) := by
       unfold rebin
       rw [if_neg (by omega), h2 cnt (le_refl _), hl r (xi cnt) hr hx0]
     refine ⟨fun j' => if j' = cnt then rebinRow nd l (xi cnt) else xi1 j', ?_, ?_, ?_⟩
